@@ -8,7 +8,8 @@ use wirm::ir::types::Location;
 use wirm::iterator::component_iterator::ComponentIterator;
 use wirm::iterator::iterator_trait::{IteratingInstrumenter, Iterator as _};
 use wirm::iterator::module_iterator::ModuleIterator;
-use wirm::opcode::Opcode;
+use wasmparser::Operator;
+use wirm::opcode::{InjectAt, Instrumenter, Opcode};
 use wirm::{Component, Module};
 
 /// a module with `nimp` function imports and local functions of the given body shapes
@@ -36,6 +37,11 @@ const STMTS: &[&[&str]] = &[
     &["i32.const 1", "if", "nop", "else", "nop", "end"],
     &["loop", "end"],
 ];
+
+fn mode_of(mode: usize) -> wirm::ir::types::InstrumentationMode {
+    use wirm::ir::types::InstrumentationMode::*;
+    [Before, After, Alternate, SemanticAfter, BlockEntry, BlockExit, BlockAlt][mode]
+}
 
 fn gen_bodies(r: &mut Rng, nf: usize) -> Vec<Vec<&'static str>> {
     (0..nf)
@@ -248,8 +254,22 @@ pub fn run_compiter(ctx: &mut Ctx) {
         }
         // an injection plan over the visited locations: (position in the visit sequence, mode, constant)
         let nplan = if exp.is_empty() { 0 } else { r.below(5) };
-        let plan: Vec<(usize, usize, i32)> = (0..nplan).map(|_| (r.below(exp.len()), r.below(3), r.below(1000) as i32)).collect();
+        // modes 0-2: before / after / alternate; 3-6: semantic_after / block_entry / block_exit / block_alt, on block-structured
+        // operators only (elsewhere the API rejects them); each either at the cursor or through `inject_at`
+        let plan: Vec<(usize, usize, i32, bool)> = (0..nplan)
+            .map(|_| {
+                let pos = r.below(exp.len());
+                let (k, f, i, _) = exp[pos];
+                let op = &all_ops[k as usize][f as usize - nimps[k as usize]][i];
+                let blockish = ["Block", "Loop", "If", "Else"].iter().any(|p| op.starts_with(p));
+                let mode = if blockish && r.chance(1, 2) { 3 + r.below(4) } else { r.below(3) };
+                (pos, mode, r.below(1000) as i32, r.chance(1, 3))
+            })
+            .collect();
         ctx.count(&format!("plan={nplan}"));
+        for (_, mode, _, at) in &plan {
+            ctx.count(&format!("inject={}{}", ["before", "after", "alternate", "semantic_after", "block_entry", "block_exit", "block_alt"][*mode], if *at { "-inject_at" } else { "" }));
+        }
         let res = guarded(|| {
             let mut comp = Component::parse(&cbytes, false).expect("parse component");
             let mut skipmap: HashMap<ModuleID, Vec<FunctionID>> = HashMap::new();
@@ -295,15 +315,30 @@ pub fn run_compiter(ctx: &mut Ctx) {
                 it.reset();
                 let t2 = collect(&mut it, &mut wrong_op);
                 // injections through the component iterator
-                for (pos, mode, k) in &plan {
+                for (pos, mode, k, at) in &plan {
                     it.reset();
+                    if *at {
+                        // another instruction of the same function is the current one; the target is addressed by its index
+                        let (m0, f0, i0, _) = exp[*pos];
+                        let first = exp.iter().position(|v| v.0 == m0 && v.1 == f0).unwrap();
+                        for _ in 0..first {
+                            it.next();
+                        }
+                        it.inject_at(i0, mode_of(*mode), Operator::I32Const { value: *k });
+                        it.inject_at(i0, mode_of(*mode), Operator::Drop);
+                        continue;
+                    }
                     for _ in 0..*pos {
                         it.next();
                     }
                     match mode {
                         0 => it.before(),
                         1 => it.after(),
-                        _ => it.alternate(),
+                        2 => it.alternate(),
+                        3 => it.semantic_after(),
+                        4 => it.block_entry(),
+                        5 => it.block_exit(),
+                        _ => it.block_alt(),
                     };
                     it.i32_const(*k).drop();
                 }
@@ -319,18 +354,32 @@ pub fn run_compiter(ctx: &mut Ctx) {
                     let sk: Vec<FunctionID> = skips[k].iter().map(|s| FunctionID(*s)).collect();
                     let mut it = ModuleIterator::new(&mut m, &sk);
                     let before_this: usize = exp.iter().filter(|v| (v.0 as usize) < k).count();
-                    for (pos, mode, c) in &plan {
+                    for (pos, mode, c, at) in &plan {
                         if exp[*pos].0 as usize != k {
                             continue;
                         }
                         it.reset();
+                        if *at {
+                            let (m0, f0, i0, _) = exp[*pos];
+                            let first = exp.iter().position(|v| v.0 == m0 && v.1 == f0).unwrap();
+                            for _ in 0..(first - before_this) {
+                                it.next();
+                            }
+                            it.inject_at(i0, mode_of(*mode), Operator::I32Const { value: *c });
+                            it.inject_at(i0, mode_of(*mode), Operator::Drop);
+                            continue;
+                        }
                         for _ in 0..(*pos - before_this) {
                             it.next();
                         }
                         match mode {
                             0 => it.before(),
                             1 => it.after(),
-                            _ => it.alternate(),
+                            2 => it.alternate(),
+                            3 => it.semantic_after(),
+                            4 => it.block_entry(),
+                            5 => it.block_exit(),
+                            _ => it.block_alt(),
                         };
                         it.i32_const(*c).drop();
                     }
